@@ -14,7 +14,6 @@
 """Symbolic list."""
 
 import dataclasses
-import math
 import numbers
 import typing
 from typing import Any, Callable, Dict, Iterable, Iterator, Optional, Tuple, Union
@@ -477,20 +476,8 @@ class List(list, base.Symbolic, pg_typing.CustomTyping):
       self._onchange_callback(field_updates)
 
   def _parse_slice(self, index: slice) -> Tuple[int, int, int]:
-    start = index.start if index.start is not None else 0
-    start = max(-len(self), start)
-    start = min(len(self), start)
-    if start < 0:
-      start += len(self)
-
-    stop = index.stop if index.stop is not None else len(self)
-    stop = max(-len(self), stop)
-    stop = min(len(self), stop)
-    if stop < 0:
-      stop += len(self)
-
-    step = index.step if index.step is not None else 1
-    return start, stop, step
+    """Returns (start, stop, step) with the semantics of `list` slicing."""
+    return index.indices(len(self))
 
   def _init_kwargs(self) -> typing.Dict[str, Any]:
     kwargs = super()._init_kwargs()
@@ -541,10 +528,7 @@ class List(list, base.Symbolic, pg_typing.CustomTyping):
     if isinstance(index, slice):
       start, stop, step = self._parse_slice(index)
       replacements = [self._formalized_value(i, v) for i, v in enumerate(value)]
-      if step < 0:
-        replacements.reverse()
-        step = -step
-      slice_size = math.ceil((stop - start) * 1.0 / step)
+      slice_size = len(range(start, stop, step))
       if step == 1:
         if slice_size < len(replacements):
           for i in range(slice_size, len(replacements)):
@@ -557,6 +541,10 @@ class List(list, base.Symbolic, pg_typing.CustomTyping):
         raise ValueError(
             f'attempt to assign sequence of size {len(replacements)} to '
             f'extended slice of size {slice_size}')
+      elif step < 0:
+        # Visit the same positions in ascending order.
+        replacements.reverse()
+        start, step = start + (slice_size - 1) * step, -step
       updates = []
       for i, r in enumerate(replacements):
         update = self._set_item_without_permission_check(start + i * step, r)
